@@ -22,7 +22,8 @@ def sh(cmd, **kw):
 
 
 def main():
-    spec = importlib.util.spec_from_file_location("challenge", os.path.join(HERE, "challenge.py"))
+    src = "mutants.py" if "--mutants" in sys.argv else "challenge.py"
+    spec = importlib.util.spec_from_file_location("challenge", os.path.join(HERE, src))
     mod = importlib.util.module_from_spec(spec)
     spec.loader.exec_module(mod)
     args = [a for a in sys.argv[1:] if not a.startswith("--")]
